@@ -613,6 +613,10 @@ class SqlalchemyRender:
 
         if node.limit is not None:
             query = query.limit(node.limit.value)
+        elif node.offset is not None and self.dialect.name == 'sqlite':
+            # SQLite has no OFFSET without LIMIT; the "LIMIT -1" sqlalchemy adds by itself is printed as an
+            # unbound parameter (LIMIT :param_1 OFFSET 2)
+            query = query.limit(-1)
 
         if node.offset is not None:
             query = query.offset(node.offset.value)
